@@ -85,6 +85,16 @@ func (r *Report) AddUnique(list *[]string, items ...string) {
 // Finish writes evidence, prints VIOLATION / KNOWN-FINDING lines and returns the process exit code.
 func (r *Report) Finish(w *World) int {
 	wall := time.Since(r.Start).Seconds()
+	r.AddUnique(&r.Trusted, "go/ssa lowering of Go source (golang.org/x/tools v0.29.0)", "SMT solvers z3 4.8.12 / z3 5.1.0 / cvc5 1.0", "the engine's own term simplifier and VC generator (/verif/engine)")
+	if r.Bounded == nil {
+		r.Bounded = []Bounded{}
+	}
+	if r.Assumptions == nil {
+		r.Assumptions = []string{}
+	}
+	if r.Inlined == nil {
+		r.Inlined = []string{}
+	}
 	known := LoadKnown()
 	isKnown := func(name string) *KnownFinding {
 		for i := range known {
